@@ -1274,6 +1274,7 @@ func (p *Printer) command(cmd Command, redirs []*Redirect) (startRedirs int) {
 		if p.minify || p.singleLine || cmd.Y.Pos().Line() <= p.line {
 			// leave p.nestedBinary untouched
 			p.spacedToken(cmd.Op.String(), cmd.OpPos)
+			p.comments(cmd.Y.Comments...)
 			p.advanceLine(cmd.Y.Pos().Line())
 			p.stmt(cmd.Y)
 			break
